@@ -213,7 +213,7 @@ def gen_pairs(ctx, fb):
                     pairs.append((n, o) if rng.random() < 0.5 else (o, n))
     # (3) random pairs over everything
     everything = exact + floats
-    for _ in range(ctx.scale(2500, 60000)):
+    for _ in range(ctx.scale(2000, 60000)):
         pairs.append((rng.choice(everything), rng.choice(everything)))
     for f in floats:
         for g in floats:
@@ -225,7 +225,7 @@ def gen_pairs(ctx, fb):
         if k not in seen:
             seen.add(k)
             out.append((a, b))
-    limit = ctx.scale(5500, 120000)
+    limit = ctx.scale(4500, 120000)
     if len(out) > limit:
         head = out[: limit // 2]
         rest = out[limit // 2:]
